@@ -167,4 +167,28 @@ example :
     let b : Block := { status := .running, seqs := [{ id := 1, status := .completed }, { id := 2, status := .running, actions := [{ status := .running, attempts := [{ tEnd := 0 }] }, { status := .completed, attempts := [{ tEnd := 5 }] }] }] }
     ((Generated.T6.fixBlock failAll 9 b).seqs.map (·.status)) = [.completed, .failed] := by decide
 
+/-- C09 for the repair itself, over the translated code: before `Recovery` resumes a plan, `fixPlan` (and `fixBlock` /
+    `fixSeq` / `fixAction` under it) never resets durably finished work. Every action that is Completed in the store is,
+    unchanged — same status, same attempts — an action of the same sequence of the same block of the repaired plan, at
+    every position, for every plan and every stored state, provided `execSeq` itself keeps Completed actions (which is
+    `terminal_action_invokes_nothing` at action level). Seeded change C09-H (reset every sequence of a block whose
+    counters are zero) is exactly a violation of this statement. -/
+theorem plan_repair_keeps_completed_work (exec : Sequence → Sequence × Bool) (hexec : Fix.ExecKeepsCompleted exec) (now : Nat) (p : Plan)
+    (i j : Nat) (b : Block) (q : Sequence) (hb : p.blocks[i]? = some b) (hq : b.seqs[j]? = some q)
+    (a : Action) (ha : a ∈ q.actions) (hc : a.status = .completed) :
+    ∃ b' q', (Generated.T6.fixPlan exec now p).blocks[i]? = some b' ∧ b'.seqs[j]? = some q' ∧ a ∈ q'.actions := by
+  rw [Translated.fixPlan_eq]; exact Fix.fixPlan_keeps_completed exec hexec now p i j b q hb hq a ha hc
+
+/-- … and block by block -/
+theorem block_repair_keeps_completed_work (exec : Sequence → Sequence × Bool) (hexec : Fix.ExecKeepsCompleted exec) (now : Nat) (b : Block)
+    (j : Nat) (q : Sequence) (hq : b.seqs[j]? = some q) (a : Action) (ha : a ∈ q.actions) (hc : a.status = .completed) :
+    ∃ q', (Generated.T6.fixBlock exec now b).seqs[j]? = some q' ∧ a ∈ q'.actions := by
+  rw [translated_fixBlock]; exact Fix.fixBlock_keeps_completed exec hexec now b j q hq a ha hc
+
+/-- the hypothesis is satisfiable: an executor that completes whatever is left of a sequence keeps its Completed actions -/
+example : Fix.ExecKeepsCompleted (fun q => ({ q with status := .completed, actions := q.actions.map (fun a => if a.status == .completed then a else { a with status := .completed }) }, false)) := by
+  intro q a ha hc
+  simp only [List.mem_map]
+  exact ⟨a, ha, by simp [hc]⟩
+
 end Coercion.C09
